@@ -59,7 +59,7 @@ def build_script(rng, chain, prog):
     sent = []
     for a in prog:
         ident += 1
-        ln, shape = rng.choice([0, 1, 7, 40, 200, 1200, 1460]), rng.choice([0, 0, 1, 2, 3])
+        ln, shape = rng.choice([0, 1, 7, 40, 200, 1200, 1460]), rng.choice([0, 0, 1, 2, 3, 5, 6, 7])
         if a in ("wok", "wfail"):
             wseq += 1
             steps.append({"a": "wrtp", "s": 1, "w": wseq % 65536, "id": ident, "len": ln, "shape": shape, "fail": a == "wfail"})
